@@ -92,6 +92,19 @@ Theorem c15_tick_ready_exact : forall w n l sink, (1 <= n)%nat -> good w n l -> 
 Proof. exact tick_ready. Qed.
 Print Assumptions c15_tick_ready_exact.
 
+(** Link between the evaluators of Exec.v.  Full statement (not proved here):
+    forall c, wf c -> check_case c = true -> holds_on c = true.
+    Proved: the lane-exclusivity clause of [holds_on].  Missing: the boolean
+    reflections of the conservation, latency, progress and FIFO clauses (their
+    Prop counterparts are the theorems above; [holds_on] itself is evaluated on
+    the implementation's observations on every run). *)
+From Akita Require Import C15.Exec C15.Proofs6.
+Theorem c15_model_agreement_implies_lane_clause_partial : forall c, (1 <= c_n c)%nat ->
+  check_case c = true ->
+  forallb (fun r => slots_ok (c_w c) (c_n c) (b_snap (cr_obs r))) (c_rounds c) = true.
+Proof. exact check_implies_slots. Qed.
+Print Assumptions c15_model_agreement_implies_lane_clause_partial.
+
 (** Regression lemma for the code before fix 6f910dbe ([run true]): in a
     single-stage pipeline an item accepted with delay 2 is never decremented and
     never leaves (here: 6 ticks with a ready sink), while the current code pushes
